@@ -195,7 +195,7 @@ def build(F):
     if 'f_deppkg' in F and 'm_dep_request' in F:
         methods.append(dict(name='CheckDep', **{'in': '.other.dep.v1.DepReq', 'out': '.other.dep.v1.Dep'},
                             http=http('post', '/v1/{name=deps/*}:check', '*'), sigs=['name'] if sig else []))
-    services = [dict(name='Library', methods=methods)]
+    services = [dict(name='Library', methods=methods, **({'api_version': '2024-05-01'} if 's_api_version' in F else {}))]
     main = dict(name=f'{PDIR}/library.proto', package=PKG, enums=enums, messages=msgs,
                 resource_definitions=resource_definitions, services=services)
     if 'f_crossfile' in F:
